@@ -89,6 +89,8 @@ int main(int argc, char** argv)
             dual = std::atoi(nx().c_str());
         else if (a == "--place")
             place = nx();
+        else if (a == "--grow")
+            g_vblk_grow = std::atoi(nx().c_str());
         else if (a == "--replay")
             replay = nx();
         else if (a == "--list")
@@ -223,6 +225,8 @@ int main(int argc, char** argv)
                    "from scratch with the oracle on every step; a class is (scenario, A, owner of p, node/array, position of p relative to A's blocks, result) "
                    "or (scenario, allocator, allocation call, success)",
                    depth, shard, of, place.c_str());
+        if (g_vblk_grow)
+            rule += "; block source of X,Y,Z doubles its block size with every block (older blocks are smaller than the newest)";
     }
     else
     {
